@@ -78,12 +78,18 @@ func hashKey(s string) keyHash {
 // BFS explores fam breadth first, level by level, in parallel, deterministically (successors
 // are merged in task order). It stops expanding at maxStates or at the deadline and records
 // that in the coverage.
-func BFS(c *Ctx, fam Family, maxStates int) {
+func BFS(c *Ctx, fam Family, maxStates int) { BFSCollect(c, fam, maxStates, nil) }
+
+// BFSCollect is BFS with a callback invoked (sequentially) for every new state.
+func BFSCollect(c *Ctx, fam Family, maxStates int, onState func(*Node)) {
 	root, rk := fam.Root()
 	seen := map[keyHash]struct{}{hashKey(rk): {}}
 	abstract := map[string]struct{}{}
 	frontier := []*Node{root}
 	c.Cov.AddStates(1)
+	if onState != nil {
+		onState(root)
+	}
 	depth := 0
 	type task struct {
 		n  *Node
@@ -138,6 +144,9 @@ func BFS(c *Ctx, fam Family, maxStates int) {
 					continue
 				}
 				next = append(next, r.Next)
+				if onState != nil {
+					onState(r.Next)
+				}
 			}
 			tasks = tasks[:0]
 			return true
